@@ -8,7 +8,9 @@ EXPLANATION = (
     "unwrapped/indexed value) and must be in the audited table with its justification; where the justification is a dominating test the "
     "rule re-checks that test; an untabled reachable site is a violation; (R2) the cardinality access table of connection endpoints "
     "(atom/cluster definition x atom/indexed access) accepts exactly the in-range combinations; (R3) type-argument substitution replaces "
-    "every placeholder submodule of a binding (a loop over all submodules, not a single find); (R4) interface conformance compares whole gate definitions (identifier and cardinality); (R5) instantiation names submodule instances by the kind of their declaration (atom: bare name, cluster: name[k] for every k, also for size 1). Decides these necessary conditions only; "
+    "every placeholder submodule of a binding (a loop over all submodules, not a single find); (R4) interface conformance compares whole gate definitions (identifier and cardinality); (R5) instantiation names submodule instances by the kind of their declaration (atom: bare name, cluster: name[k] for every k, also for size 1). "
+    "(R6) every described link becomes a channel with its parameters, and only links do; (R7) the elaboration order's readiness predicate accepts a dependency only if it is in the provider set. "
+    "Decides these necessary conditions only; "
     "not that the built simulation equals the description.")
 ASSUMPTIONS = ["serde_yml itself does not panic on malformed documents", "documents reach the front end only through serde (FromStr/Deserialize impls) and transform()"]
 
